@@ -1023,7 +1023,7 @@ def main():
         ck.notes.append(f"exhaustive: all {k} valid ordered pair lists with <= 4 pairs over <= 2x2 stored points and <= 3 pairs "
                         "over 2x3 / 3x2 stored points (collapse both references, expand, concat with itself)")
     big = 0.04 if ck.tier == "quick" else 0.06
-    explore(ck, ck.budget(130, 1800), ck.budget(50, 800), ck.budget(30, 400), big, use_model)
+    explore(ck, ck.budget(130, 1300), ck.budget(50, 600), ck.budget(30, 300), big, use_model)
     if ck.broken() and not ck.violations:
         # failing-input search on the real code with the larger budget (oracle only)
         explore(ck, 1500, 600, 300, 0.05, use_model=False)
